@@ -452,8 +452,8 @@ type reuseWorld struct {
 	// retention entries that become active after the current op (the op itself is a call on that face)
 	pendingFace []func()
 	trace       uint64
-	states   map[string]bool
-	prevKind string
+	states      map[string]bool
+	prevKind    string
 }
 
 func (w *reuseWorld) log(s string) {
